@@ -54,11 +54,11 @@ def witnesses(tier, seed):
                 if t == 'f32' and n > 6 and quick:
                     continue
                 W.append(mk(t, n, strat))
-            for n in ([8, 9, 12, 16, 17, 33, 40] if quick else [9, 10, 11, 12, 16, 17, 32, 33, 40, 64, 65]):
+            for n in ([8, 9, 12, 16, 17, 33, 40] if quick else [8, 9, 10, 11, 12, 16, 17, 32, 33, 40, 64, 65]):
                 if t == 'f32' and quick and n not in (9, 17):
                     continue
                 W.append(mk(t, n, strat, band=1))
-                if n <= 40:          # the dense rank-one blocks make larger arrow cases exceed the memory of 16 parallel interpreters
+                if n <= 40 and (quick or n <= 17 or t == 'f64'):   # the dense rank-one blocks make larger arrow cases exceed the memory of 16 parallel interpreters
                     W.append(mk(t, n, strat, band='arrow'))
                 if n <= 17:
                     W.append(mk(t, n, strat, band='arrow1'))
@@ -70,7 +70,7 @@ def witnesses(tier, seed):
             for n in ([2, 3, 4, 5, 8, 9] if quick else [2, 3, 4, 5, 6, 7, 8, 9, 12, 16, 17]):
                 W.append(mk_tinverse(t, n, uplo))
             # every size class of the recursive triangular inverse (<=4, <=8, <=16, <=32, <=64, <=128, <=256) on bidiagonal operands
-            for n in ([16, 17, 32, 33, 65] if quick else [16, 17, 32, 33, 64, 65, 128, 129, 256]):   # the library offers no triangular inverse beyond 256 (no dispatcher overload: rejected at compile time)
+            for n in ([16, 17, 32, 33, 65] if quick else [16, 17, 32, 33, 64, 65, 128, 129]):   # the library offers no triangular inverse beyond 256 (no dispatcher overload: rejected at compile time)
                 if t == 'f32' and n not in (17, 33):
                     continue
                 W.append(mk_tinverse(t, n, uplo, band=1))
